@@ -1,7 +1,7 @@
 (* Properties/C10.v -- The smallest symbol that can hold the data is chosen (what is a theorem, and the recorded gap). *)
 From Coq Require Import Arith NArith List Bool.
 From DM Require Import Generated.Symbols Generated.ModeTables Model.Outcome Model.SymbolList Model.Planner Model.PlannerRun Model.Enc
-  Model.Dec Model.Api Proofs.SymbolListProofs Proofs.EncLocal Proofs.EncTop Spec.Stream16022 Proofs.EncAscii Proofs.AsciiMinimal.
+  Model.Dec Model.Api Proofs.SymbolListProofs Proofs.EncLocal Proofs.EncTop Spec.Stream16022 Proofs.EncAscii Proofs.AsciiMinimal Proofs.B256Minimal.
 Import ListNotations.
 Local Open Scope N_scope.
 
@@ -37,6 +37,20 @@ Theorem C10_ascii_only_minimal : forall sorter data symbols cw s, wf symbols ->
   forall s', In s' symbols -> N.of_nat (length (flat_map aitem_cw items)) <= num_data_codewords s' -> s' = s \/ ss_ltP s s'.
 Proof. exact ascii_only_minimal. Qed.
 Print Assumptions C10_ascii_only_minimal.
+
+(* (i'') the full statement for the Base256-only configuration (ASCII disabled): among ALL legal streams made of Base256
+   fields -- one or several fields with explicit length, or a field that runs to the end of the symbol -- followed by
+   padding, none fills a listed symbol smaller than the one returned (every byte string, every sorted list, every
+   admissible sort).  The one case where a shorter stream exists than the explicit-length one the planner priced
+   (250 or more bytes in the run-to-the-end form) needs a symbol of exactly n + 2 codewords, and then the encoder
+   takes it. *)
+Theorem C10_base256_only_minimal : forall sorter data symbols cw s, wf symbols ->
+  (forall k l l', sorter symbols k l = Ok l' -> incl l' l) ->
+  encode_data_internal (optimize_fn sorter) data symbols None 32 false false = Ok (cw, s) ->
+  forall script npad, forallb b256_seg script = true -> script_ok script npad = true -> meaning script = data ->
+  forall s', In s' symbols -> N.of_nat (length (stream script npad)) = num_data_codewords s' -> s' = s \/ ss_ltP s s'.
+Proof. exact b256_only_minimal. Qed.
+Print Assumptions C10_base256_only_minimal.
 
 (* in the crate's order a later symbol never has a smaller capacity *)
 Theorem C10_order_is_capacity : forall l, wf l ->
